@@ -7,6 +7,7 @@ CONSTANTS
   P = 2
   W = 3
   Strict = FALSE
+  StrictHeal = FALSE
   PortOps <- AllOps
   OpPorts <- AllOpPorts
   Fresh <- AnyFresh
